@@ -348,10 +348,24 @@ def fromSubsequence (syms p : List α) (contains : Bool := true) : Res (DFA Int 
 
 /-! ### of_length / count_mod -/
 
-/-- `DFA.of_length(input_symbols, min_length=…, max_length=…, symbols_to_count=…)`. -/
-def ofLength (syms : List α) (minLen : Int := 0) (maxLen : Option Int := none)
-    (count : Option (List α) := none) : Res (DFA Int α) :=
-  let cnt := count.getD syms
+/-- `input_symbols.isdisjoint(symbols_to_count)`. -/
+def isDisjoint (syms cnt : List α) : Bool := syms.all fun a => decide (a ∉ cnt)
+
+/-- `min_length <= 0 and (max_length is None or max_length >= 0)`: does the counted length `0`
+lie in the range? -/
+def zeroInRange (minLen : Int) (maxLen : Option Int) : Bool :=
+  decide (minLen ≤ 0) && (match maxLen with | none => true | some mx => decide (0 ≤ mx))
+
+/-- `max_length is not None and max_length < max(min_length, 0)`: empty range of lengths. -/
+def emptyRange (minLen : Int) (maxLen : Option Int) : Bool :=
+  match maxLen with
+  | none => false
+  | some mx => decide (mx < max minLen 0)
+
+/-- The body of `of_length` after the two early returns: the counting ladder, `cnt` being
+`symbols_to_count` after defaulting. -/
+def ofLengthCore (syms : List α) (minLen : Int) (maxLen : Option Int) (cnt : List α) :
+    Res (DFA Int α) :=
   -- `len(length_range)`: `range(min_length)` or `range(max_length + 1)`
   let n : Nat := match maxLen with
     | none => minLen.toNat
@@ -365,6 +379,22 @@ def ofLength (syms : List α) (minLen : Int := 0) (maxLen : Option Int := none)
     | some mx => (List.range (mx + 1 - minLen).toNat).map fun j => minLen + nat j
   build { states := akeys t, syms := syms, trans := t, init := 0, finals := finals,
           allowPartial := false }
+
+/-- `DFA.of_length(input_symbols, min_length=…, max_length=…, symbols_to_count=…)`: when no
+symbol of the alphabet is counted every word has counted length `0` (universal or empty
+language); an empty range of lengths gives the empty language; otherwise the ladder. -/
+def ofLength (syms : List α) (minLen : Int := 0) (maxLen : Option Int := none)
+    (count : Option (List α) := none) : Res (DFA Int α) :=
+  let cnt := count.getD syms
+  match isDisjoint syms cnt with
+  | true =>
+    match zeroInRange minLen maxLen with
+    | true => universalLanguage syms
+    | false => emptyLanguage syms
+  | false =>
+    match emptyRange minLen maxLen with
+    | true => emptyLanguage syms
+    | false => ofLengthCore syms minLen maxLen cnt
 
 /-- `DFA.count_mod(input_symbols, k, remainders=…, symbols_to_count=…)`. -/
 def countMod (syms : List α) (k : Int) (remainders : Option (List Int) := none)
